@@ -225,7 +225,8 @@ func (s *Streamsql) Emit(data map[string]interface{}) {
 		return
 	}
 	if s.schemaValidator != nil {
-		if err := s.schemaValidator.Validate(data); err != nil {
+		var err error
+		if data, err = s.validate(data); err != nil {
 			n := atomic.AddInt64(&s.schemaDropped, 1)
 			if n == 1 || n%1000 == 0 {
 				s.log.Warn("schema validation failed, dropping row (total %d): %v", n, err)
@@ -273,12 +274,34 @@ func (s *Streamsql) EmitSync(data map[string]interface{}) (map[string]interface{
 	}
 
 	if s.schemaValidator != nil {
-		if err := s.schemaValidator.Validate(data); err != nil {
+		var err error
+		if data, err = s.validate(data); err != nil {
 			atomic.AddInt64(&s.schemaDropped, 1)
 			return nil, fmt.Errorf("schema validation failed: %w", err)
 		}
 	}
 	return s.stream.ProcessSync(data)
+}
+
+// validate checks data against the schema. Schema.Validate fills declared
+// defaults into the map it is given; the row belongs to the caller, so when a
+// default is about to be filled the check runs on a copy, which is then the row
+// that enters the pipeline.
+func (s *Streamsql) validate(data map[string]interface{}) (map[string]interface{}, error) {
+	for _, f := range s.schemaValidator.Fields {
+		if f.Default == nil {
+			continue
+		}
+		if _, present := data[f.Name]; !present {
+			cp := make(map[string]interface{}, len(data)+len(s.schemaValidator.Fields))
+			for k, v := range data {
+				cp[k] = v
+			}
+			data = cp
+			break
+		}
+	}
+	return data, s.schemaValidator.Validate(data)
 }
 
 // SchemaDropped returns the count of rows dropped by schema validation.
